@@ -1053,9 +1053,18 @@ func (c *rigChild) step(st rigStep, r *rigResult) {
 		time.Sleep(time.Duration(st.Ms) * time.Millisecond)
 
 	default:
+		// Steps added by other engines in their own files (steps_*.go) register
+		// themselves in rigExtraSteps from an init() function.
+		if f, ok := rigExtraSteps[st.Op]; ok {
+			f(c, st, r)
+			return
+		}
 		panic("unknown op " + st.Op)
 	}
 }
+
+// rigExtraSteps: additional step types, keyed by op (see steps_c15c16.go).
+var rigExtraSteps = map[string]func(c *rigChild, st rigStep, r *rigResult){}
 
 func (c *rigChild) startGetGeneric(st rigStep, method, path string, body io.Reader, basicDefault string) *rigBgGet {
 	ctx, cancel := context.WithCancel(context.Background())
